@@ -15,3 +15,31 @@ PROPS = {
         trusted_base=["Go harness harness/enc (generator, oracle), Driver/Enc.lean (parsing/printing)"],
     ),
 }
+
+_CRDT_RULE = ("10 directed histories (diamond, heads at different heights, null/value ties in both directions, tie on a deleted "
+              "document, shared register block, delete concurrent with update + redelivery of ancestors, branchable doc/collection "
+              "commit orders) then PRNG-generated histories over 2-4 replicas: creates (incl. the same document on two nodes), "
+              "register writes from small value pools (ties frequent), increments/decrements, deletes, deliveries of arbitrary "
+              "earlier commits in arbitrary order incl. redelivery, full syncs; a case is non-trivial when it reached a quiescent "
+              "point with all replicas compared; distinct = distinct (case, commit count)")
+_CRDT_ASSUME = [
+    "the Lean mirror of updateHeads/setValue/incrementValue/Merge/isMerged/loadComposites/processBlock is the Go code (compared after every local write and every delivery, incl. head sets)",
+    "mirror state = canon(merged set) is checked by execution at every step (SPEC-DIFFERS marker), not proved: exactness of isMerged/loadComposites is not yet a theorem",
+    "every block a delivery refers to is available (the harness copies the block store before each delivery), i.e. `known` is always true",
+    "cid is a function of content (SHA-256 collision freedom); labels are assigned per cid",
+]
+
+def _crdt(props_module, tags, extra_rule=""):
+    return dict(
+        lean_modules=[props_module],
+        props_modules=[props_module],
+        engines=[dict(name="crdt", drv="crdt")],
+        oracle_tags=tags,
+        rule=_CRDT_RULE + extra_rule,
+        assumptions=_CRDT_ASSUME,
+        trusted_base=["Go harness harness/crdt + harness/node + overlay hook internal/db/verif_hooks.go (synchronous executeMerge), Driver/Crdt.lean"],
+    )
+
+PROPS["C01"] = _crdt("DefraModel.Props.C01", ["replicas-differ", "heads-differ", "merge-error", "panic", "collection-id-differs"])
+PROPS["C02"] = _crdt("DefraModel.Props.C02", ["counter-sum", "register-not-latest", "deleted-status", "value-key-family", "panic", "event-on-failed-op"])
+PROPS["C04"] = _crdt("DefraModel.Props.C04", ["dag-content-address", "dag-missing-block", "dag-height", "head-height", "heads-not-maximal", "genesis-differs", "panic"])
